@@ -98,10 +98,9 @@ JUDGED_RE = re.compile(r'<<"JUDGED", (\d+), (\d+)>>')
 def split_file(path, n, work, tag):
     lines = open(path).readlines()
     n = max(1, min(n, len(lines)))
-    per = (len(lines) + n - 1) // n
     parts = []
     for i in range(n):
-        chunk = lines[i * per:(i + 1) * per]
+        chunk = lines[i::n]        # round-robin: expensive cases cluster in the generators' output
         if not chunk:
             continue
         p = os.path.join(work, "%s.part%d.ndjson" % (tag, i))
